@@ -374,6 +374,28 @@ theorem int_roundtrip_uint64 (v : Nat) (h : v ≤ 18446744073709551615) : toUInt
   unfold toUInt64 fromUInt64
   rw [printf_eq, cstr_decDigits, strtoull_dec v h]
 
+/-- stated outright (consequence of the four round trips): the decimal texts are injective on the whole range of each type -
+    two different `int`/`uint`/`int64`/`uint64` values never print the same text -/
+theorem int_texts_injective :
+    (∀ v w : Int, -2147483648 ≤ v → v ≤ 2147483647 → -2147483648 ≤ w → w ≤ 2147483647 → fromInt v = fromInt w → v = w) ∧
+    (∀ v w : Nat, v ≤ 4294967295 → w ≤ 4294967295 → fromUInt v = fromUInt w → v = w) ∧
+    (∀ v w : Int, -9223372036854775808 ≤ v → v ≤ 9223372036854775807 → -9223372036854775808 ≤ w → w ≤ 9223372036854775807 →
+      fromInt64 v = fromInt64 w → v = w) ∧
+    (∀ v w : Nat, v ≤ 18446744073709551615 → w ≤ 18446744073709551615 → fromUInt64 v = fromUInt64 w → v = w) := by
+  refine ⟨?_, ?_, ?_, ?_⟩
+  · intro v w a b c d h
+    have := congrArg toInt h
+    rwa [int_roundtrip_int v a b, int_roundtrip_int w c d] at this
+  · intro v w a b h
+    have := congrArg toUInt h
+    rwa [int_roundtrip_uint v a, int_roundtrip_uint w b] at this
+  · intro v w a b c d h
+    have := congrArg toInt64 h
+    rwa [int_roundtrip_int64 v a b, int_roundtrip_int64 w c d] at this
+  · intro v w a b h
+    have := congrArg toUInt64 h
+    rwa [int_roundtrip_uint64 v a, int_roundtrip_uint64 w b] at this
+
 example : fromInt (-2147483648) = [45, 50, 49, 52, 55, 52, 56, 51, 54, 52, 56] := by
   simp [fromInt, printf_eq, fmtSigned, decDigits]
 example : toInt [45, 50, 49, 52, 55, 52, 56, 51, 54, 52, 56] = -2147483648 := by decide
